@@ -133,6 +133,37 @@ def main():
     good = ok["ok"] and not r1["ok"] and not r1b["ok"] and not r2["ok"] and not r3["ok"] \
         and s_ok["ok"] and not s1["ok"] and not s2["ok"] and not s3["ok"] \
         and l_ok["ok"] and not l1["ok"] and not l2["ok"] and not l3["ok"]
+    # ---- a scheduled concurrent execution's lock log against ConcTrace.tla
+    import concchecks as CC
+    sim = CC.simulate("Conc_c09_sim.cfg", 40)
+    reps = list(C.tlc_cases(sim, prefix="REPLAY"))[:12]
+    ccases = [CC.build_case(i, rep, False, log=True)[0] for i, rep in enumerate(reps)]
+    cres = CC.run_conc(ccases)
+    runs = [(reps[cid]["sc"], r["log"]) for cid, r in sorted(cres.items()) if isinstance(r, dict) and r.get("log")]
+
+    class _V:            # a verdict stand-in: conc_trace_validate only records notes / drift / violations
+        def __init__(self):
+            self.notes, self.drift, self.viol = {}, 0, []
+
+        def violation(self, a, b):
+            self.viol.append(b)
+    v1 = _V()
+    CC.conc_trace_validate(v1, runs, "selftest")
+    c_ok = v1.drift == 0 and not v1.viol and v1.notes["conc_trace_validation"]["accepted"] == len(runs)
+    print("lock logs of %d scheduled executions accepted:" % len(runs), c_ok)
+    bad_runs = json.loads(json.dumps(runs))
+    k = next(i for i, e in enumerate(bad_runs[0][1]) if e["ph"] == "acq" and e["t"] in (1, 2) and e["map"] == "usages")
+    del bad_runs[0][1][k]
+    v2 = _V()
+    CC.conc_trace_validate(v2, bad_runs, "selftest")
+    print("lock log with one acquisition on `usages` removed rejected:", v2.drift >= 1)
+    bad_runs = json.loads(json.dumps(runs))
+    k = next(i for i, e in enumerate(bad_runs[0][1]) if e["ph"] == "acq" and e["t"] in (1, 2) and e["map"] == "usage_by_fixture" and e["mode"] == "W")
+    bad_runs[0][1].insert(k, dict(bad_runs[0][1][k]))
+    v3 = _V()
+    CC.conc_trace_validate(v3, bad_runs, "selftest")
+    print("lock log with one write acquisition on `usage_by_fixture` doubled rejected:", v3.drift >= 1)
+    good = good and c_ok and v2.drift >= 1 and v3.drift >= 1
     # ---- vacuity guard: every action of the state-machine configurations is taken, no branch of theirs is never evaluated
     import vacuity
     good = vacuity.main() and good
